@@ -227,8 +227,8 @@ PROPS = {
 # `RecordPos` -> `Line`), these rules have nothing to hold on to: their failing instances for that format are
 # "no verdict", never violations.
 LAYOUT = {
-    'fasta': {'Reader': ['buf_reader', 'buf_pos', 'search_pos', 'position', 'state', 'buf_policy'], 'BufferPosition': ['start', 'seq_pos'], 'enums': ['fasta::State']},
-    'fastq': {'Reader': ['buf_reader', 'buf_pos', 'incomplete_pos', 'position', 'state', 'buf_policy'], 'BufferPosition': ['pos', 'seq', 'sep', 'qual'], 'enums': ['fastq::State', 'fastq::RecordPos']},
+    'fasta': {'Reader': ['buf_reader', 'buf_pos', 'search_pos', 'position', 'state', 'buf_policy'], 'BufferPosition': ['start', 'seq_pos'], 'RecordSet': [], 'enums': ['fasta::State']},
+    'fastq': {'Reader': ['buf_reader', 'buf_pos', 'incomplete_pos', 'position', 'state', 'buf_policy'], 'BufferPosition': ['pos', 'seq', 'sep', 'qual'], 'RecordSet': [], 'enums': ['fastq::State', 'fastq::RecordPos']},
 }
 NAME_DEPENDENT = ('FSM-', 'SEEK-', 'UNIT-', 'EPOS-', 'STAGE-1', 'GROW-4', 'GROW-5', 'GROW-6', 'GROW-7', 'BUF-2', 'ADV-1', 'CHAIN-1', 'LEN-2', 'LEN-3', 'TPL-4', 'SCAN-3', 'ALLOC-2', 'MARK-1')
 
@@ -237,7 +237,7 @@ def layout_guard(prog, R):
     changed = {}
     for fmt, want in LAYOUT.items():
         miss = []
-        for adt_name in ('Reader', 'BufferPosition'):
+        for adt_name in ('Reader', 'BufferPosition', 'RecordSet'):
             adt = prog.adts.get('%s::%s' % (fmt, adt_name))
             have = set(fd['name'] for fd in adt['variants'][0]['fields']) if adt else set()
             miss += ['%s.%s' % (adt_name, n) for n in want[adt_name] if n not in have]
